@@ -273,6 +273,20 @@ def cwriteOp (args : List String) : String :=
     | none => "bad-op"
   | _, _ => "bad-op"
 
+/-- `tbudget`: the server has put a deadline `budget=` ms from now on the request's context; the
+    peer's timeout header is `hdr=` (hex): how many ms from now is the handler's deadline -/
+def tbudgetOp (args : List String) : String :=
+  match kv args "proto", (kv args "budget").bind String.toNat?, (kv args "hdr").bind hexArg with
+  | some proto, some budget, some hdr =>
+    let p : Proto := if proto == "connect" then .connect else if proto == "grpc" then .grpc else .grpcWeb
+    match handlerParseTimeout p hdr with
+    | .invalid => "rejected"
+    | parse =>
+      match handlerDeadline (some ((budget : Int) * 1000000)) 0 parse with
+      | some dl => s!"ms={dl / 1000000}"
+      | none => "none"
+  | _, _, _ => "bad-op"
+
 def poolTraceOp (toks : List String) : String :=
   let evs : Option (List PoolEv) := toks.mapM fun t =>
     if t.startsWith "g" then ((t.drop 1).toString.toNat?).map PoolEv.get
@@ -386,6 +400,7 @@ def step (line : String) : String :=
   | "cflow" :: args => cflowOp args
   | "cwatch" :: args => cwatchOp args
   | "cwrite" :: args => cwriteOp args
+  | "tbudget" :: args => tbudgetOp args
   | "gen" :: args => genOp args
   | "icpt" :: args => icptOp args
   | "recover" :: args => recoverOp args
